@@ -2,6 +2,7 @@ SPECIFICATION Spec
 CONSTANTS
   Kinds = {"cdef", "cpdef", "meth", "cpmeth"}
   CrossPtr = TRUE
+  Legacy = {FALSE}
   Dump = TRUE
 INVARIANT ImplAgrees
 INVARIANT ErrConsistent
